@@ -19,6 +19,18 @@ CLAIMED = {
             "products and arch_lzcnt modelled; aliasing and input-unchanged clauses observed on the implementation only; bn_sqr_basic "
             "(bn_sqra_low) compared but not modelled separately.",
             "DESIGN.md §5 C01"),
+    "C02": ("Lean 4 proofs (canonical modular add/sub/neg/dbl/hlv; product-scanning Montgomery reduction exact and canonical for every "
+            "T < pR; Montgomery mul/sqr) + correspondence on six 256-bit primes against Z/pZ",
+            "Proved in Lean for the digit-level model, for every odd modulus with n digits in any base 2^w and u*p = -1 mod B: fp_addm/subm/"
+            "negm/dblm/hlvm return the canonical residue (< p); fp_rdcn_low returns c < p with c*R = T mod p for every 2n-digit T < pR, "
+            "including the carry-out and final-subtraction branches; fp_mulm/fp_sqrm compose them; equality of canonical elements is equality "
+            "of residues. Inversion, symbol, exponentiation and root algorithms (all variants) are class C: compared with the Z/pZ "
+            "specification (a*c = 1, r*r = a, Euler) on every run, not proved. Tie: ~4200 operation lines per run on NIST/BSI/SECG/SM2/BN/SM9 "
+            "256-bit primes: structured Montgomery digits, all variants by name, aliasing, raw digit-level calls, decoder bounds.",
+            "Trusted: Lean kernel; hand-written model tied by correspondence; the field context (p, u, R^2, qnr) is read from the running library "
+            "and checked against its defining equations; FP_RDC = MONTY only; known finding F16 (fp_exp_slide refuses exponents longer than the "
+            "field size).",
+            "DESIGN.md §5 C02"),
     "C14": ("Lean 4 proofs (streaming SHA-256 = FIPS 180-4 for every chunking; md_hmac/nist_kdf/md_xmd = RFC 2104 / MGF1-KDF2 / RFC 9380; "
             "PKCS#7 + CBC round trip and rejection logic) + correspondence against standard-derived Lean specs",
             "Proved in Lean for the model: the streaming SHA-256 implementation equals the one-shot FIPS 180-4 definition for every message "
